@@ -47,7 +47,8 @@ def floors(m, tier):
             "expected SpilException observed": (c.get("refused", 0), 2000),
             "reads compared": (c.get("reads", 0), 50000),
             "fresh-process reads": (c.get("fresh_process_reads", 0), nfresh // 2),
-            "overwrites of a key": (c.get("overwrite", 0), 300)}
+            "overwrites of a key": (c.get("overwrite", 0), 300),
+            "one dict object passed to a second successful call": (c.get("shared_dict_reused", 0), 200)}
 
 
 def run(snap, tier, seed, t0, replay):
@@ -165,6 +166,10 @@ def ops_alphabet(al):
             ops.append(("setpos", r, "k1"))      # positional form set(sid, attribute, value), falsy values
         if r in ("F1", "P"):
             ops.append(("set", r, "sid"))        # an attribute that happens to be called 'sid': the record's own Sid still wins
+        if r in ("F1", "G", "V"):
+            ops.append(("update_shared", r, "k3"))   # the client passes ONE dict object to several calls (adding a key each time)
+        if r in ("G", "P"):
+            ops.append(("create_shared", r, "k3"))
     return ops
 
 
@@ -235,20 +240,30 @@ def run_sequence(rec, lab, al, ops, hid, fresh=False, config=None):
     finder = FindInPaths(config)
     case = {"ops": [list(o) for o in ops], "config": config, "which": lab.alphabet_which}
     wrote = False
+    shared, shared_shadow = {}, {}       # the client's dict object, and what the client believes it holds
     for step, (op, role, key) in enumerate(ops):
         e = al[role]
         val = "%s.%d" % (hid, step)
         if op == "setpos":
             val = FALSY[step % len(FALSY)]
         data = {key: val} if key else None
+        if op.endswith("_shared"):
+            shared[key] = val
+            shared_shadow[key] = val
+            data = dict(shared_shadow)
+            rec.count("shared_dict_calls")
         c = dict(case, step=step)
-        if op == "create":
+        if op in ("create", "create_shared"):
             exp = m.do_create(e, data)
         else:
             exp = m.do_write(e, data)
         try:
             if op == "create":
                 got = writer.create(e, data) if data else writer.create(e)
+            elif op == "create_shared":
+                got = writer.create(e, shared)
+            elif op == "update_shared":
+                got = writer.update(e, shared)
             elif op == "setpos":
                 got = writer.set(e, key, val)
             elif op == "set" and key == "sid":
@@ -270,6 +285,8 @@ def run_sequence(rec, lab, al, ops, hid, fresh=False, config=None):
         else:
             rec.count("ok:" + op)
             wrote = True
+            if op.endswith("_shared") and len(shared_shadow) > 0 and sum(1 for o in ops[:step] if o[0].endswith("_shared")):
+                rec.count("shared_dict_reused")
         # observables of every Sid
         g2 = GetFromPaths(config)
         for role2, e2 in al.items():
@@ -304,6 +321,11 @@ def run_sequence(rec, lab, al, ops, hid, fresh=False, config=None):
                     found = {str(r) for r in finder.find(par + "/*")}
                     if (e2 in found) != m.exists(e2):
                         rec.violation("search_vs_existence", dict(c, sid=e2), "in find(%s/*): %r, model exists: %r" % (par, e2 in found, m.exists(e2)))
+                        return False
+                    phantom = found - m.existing
+                    if phantom:
+                        # nothing exists that was not created (attribute writes create no entity)
+                        rec.violation("found_but_never_created", dict(c, sid=e2), "find(%s/*) also returned %r" % (par, sorted(phantom)[:4]))
                         return False
                 if config == lab.default_config and key and x and lab.conf.get_getter_for(x) is not None:
                     ga = x.get_attr(key)       # (types configured without a Getter answer None by configuration)
